@@ -7,6 +7,8 @@ from ..boot import priv
 PROP = 'C05'
 LEVEL = 'exploration'
 INVARIANTS = ('no_convergence', 'no_progress', 'replicas_differ', 'laggard_offered_no_snapshot')
+# (reported by this check too, owned by C09: a node whose log has a hole behind its applied position stays behind for good)
+SHARED = ('log_gap',)
 for _i in INVARIANTS:
     INV_PROP[_i] = PROP
 RULE = ('one case = a fault phase drawn from the C01 schedule space (partitions, resets, holds, stalls, stale leaders, '
@@ -71,7 +73,7 @@ class CatchUpTap(object):
 class C05Spec(c01.C01Spec):
     churn_share = 0
     prop = PROP
-    invariants = INVARIANTS
+    invariants = INVARIANTS + SHARED
 
     def draw(self, rng, tier='quick'):
         cfg = c01.C01Spec.draw(self, rng, tier)
